@@ -61,6 +61,19 @@ func init() {
 	regScenario(&sched.Scenario{Name: "inst3-compact", Cfg: sim.Config{Voters: 3, SnapAt: 2}, Prefix: lag,
 		Steps: [][]sim.Event{sim.MustParse("deliver 0>2:AE#5", "deliver 0>2:IS#0"), sim.MustParse("beat n0"), sim.MustParse("rt 0>2:AE#8"), sim.MustParse("crash n2"), sim.MustParse("restart n2")}})
 
+	// R: a read on a freshly elected leader. n1 holds the acknowledged write 3
+	// (committed by the cut-off n0) but has not learnt that it is committed; it
+	// wins term 2 and appends its no-op (4). A read is submitted before anything
+	// of term 2 is committed; the reply that completes both the read's
+	// confirmation round and the commit of 4 then wakes commitLoop,
+	// readOnlyLoop and applyLoop together.
+	newLeader := append(append([]sim.Event{}, seedLeader3...), sim.MustParse(
+		"write n0", "deliver 0>1:AE#2", "reply 0>1:AE#2", "isolate n0", "timeout n1", "rt 1>2:RV#0 a=2", "rt 1>2:RV#1")...)
+	regScenario(&sched.Scenario{Name: "read-newleader", Cfg: sim.Config{Voters: 3}, Monitors: safetyMonitors, Prefix: newLeader,
+		Steps: [][]sim.Event{sim.MustParse("read n1"), sim.MustParse("rt 1>2:AE#0"), sim.MustParse("beat n1"), sim.MustParse("rt 1>2:AE#1"), sim.MustParse("beat n1"), sim.MustParse("rt 1>2:AE#2")}})
+	// R': the same with a lease-based read (the reply renews the lease).
+	regScenario(&sched.Scenario{Name: "lease-newleader", Cfg: sim.Config{Voters: 3}, Monitors: safetyMonitors, Prefix: newLeader,
+		Steps: [][]sim.Event{sim.MustParse("lease n1"), sim.MustParse("rt 1>2:AE#0"), sim.MustParse("beat n1"), sim.MustParse("rt 1>2:AE#1"), sim.MustParse("beat n1"), sim.MustParse("rt 1>2:AE#2")}})
 	checks["C10"] = func(prop, tier string) int {
 		pl := []schedPlan{{"snap1-seq", 3, 90}, {"snap1-par", 2, 60}, {"snap1-big", 2, 60}, {"inst3-restore", 3, 90}, {"inst3-compact", 3, 90}}
 		if tier == "thorough" {
